@@ -1020,6 +1020,15 @@ def run(ck: core.Check):
             stats["mismatches"] += 1
             brk(ck, "correspondence", f"kind check: {op.key}", f"real Inputs(...) {'accepted' if ok else 'raised TypeError'}; model {ans}"[:600] + f" args={req['args']}")
 
+    # 3. round 10: Type._subtype / Shape.__le__ / PropValue.check / the attach loop of Node.inference
+    #    against Model/Subtype.lean on generated inputs (near misses of fitting pairs)
+    try:
+        from harness import lib_c05_subtype as LS
+
+        ck.cov["subtype_check_tie"] = LS.run_stage(ck, brk, ck.pick(2000, 20000), ck.pick(2000, 20000), ck.pick(400, 4000))
+    except Exception as e:  # noqa: BLE001
+        brk(ck, "correspondence", "subtype / PropValue.check tie could not be run", f"{type(e).__name__}: {e}"[:300])
+
     # ------------------------------------------------------------------ evidence
     totals = collections.Counter()
     for c in per_op.values():
